@@ -31,6 +31,9 @@ def run(check: Check, repo: Repo, tier: str) -> None:
     n = identity.check_id_pin(check, repo, mods)
     check.floor("ID-PIN", 5, "id() call sites in the executor and its identity containers")
     X.memo_key_cover(check, repo)
+    X.memo_discovery(check, repo, repo.package_modules('execution'))
+    X.nonnull_after_completion(check, repo)
+    G.param_readonly(check, list(repo.mod("error.located_error").functions()))
     X.serial(check, repo)
     X.key_order(check, repo)
     X.awaitable_kinds(check, repo)
